@@ -488,10 +488,12 @@ HttpResponse Http::request(HttpRequest& request)
 
 	int code = response.code();
 
-	if (request.followRedirects() && (code == 301 || code == 302 || code == 307 || code == 308)) // 303 ?
+	String loc = response.header("Location");
+
+	// a redirection that names no target cannot be followed: it is returned like any other response
+	if (request.followRedirects() && loc.ok() && (code == 301 || code == 302 || code == 307 || code == 308)) // 303 ?
 	{
 		socket.close();
-		String loc = response.header("Location");
 		HttpRequest req(request);
 		req.setUrl(loc);
 		Http::Progress progress = req._progress;
